@@ -66,13 +66,11 @@ def k_tc(ctx, route, apid, count, service, subservice, source_id, ack, data, mod
     tcm, sp, check_pus_crc = _imp()
     data_b = bytes.fromhex(data) if isinstance(data, str) else bytes(data)
     case = {"k": "tc", "route": route, "apid": apid, "count": count, "service": service, "subservice": subservice,
-            "source_id": source_id, "ack": ack, "data": data_b.hex() if len(data_b) <= 64 else data_b[:8].hex() + f"..x{len(data_b)}"}
-    if len(data_b) > 64:
-        case["data_len"] = len(data_b)
-        case["data_fill"] = "seeded"
+            "source_id": source_id, "ack": ack, "data": data_b.hex()}          # complete, so that a witness can be replayed as it is
+    sample = case if len(data_b) <= 64 else dict(case, data=data_b[:8].hex() + "..", data_len=len(data_b))
     trivial = (service, subservice, source_id, ack, apid) == (17, 1, 0, 15, 1) and len(data_b) in (0, 3)
     ctx.case(f"tc/{route}/len={_lenclass(len(data_b))}", (route, apid, count, service, subservice, source_id, ack,
-                                                          hash(data_b)), nontrivial=not trivial, sample=case)
+                                                          hash(data_b)), nontrivial=not trivial, sample=sample)
     want = R.tc(apid, count, service, subservice, source_id, ack, data_b)
     ok, t = attempt(build, route, apid, count, service, subservice, source_id, ack, data_b)
     if not ctx.check("tc.construct", ok, "raised", exc_sig(t) if not ok else "", case, error=repr(t)):
